@@ -154,14 +154,16 @@ fn parse_uri(buf: &[u8]) -> Result<(RequestUri<'_>, &[u8]), HttpParsingError> {
         let n = match_uri_vectored(&buf[i..]); // scan path up to SP
         i += n;
         match buf.get(i).copied() {
-            Some(b' ') => {}                            // all good, we found the SP
+            Some(b' ') => {} // all good, we found the SP
+            Some(b'\r' | b'\n') => return Err(UnsupportedHttpVersion), // line ends without a version
             Some(_) => return Err(MalformedStatusLine), // invalid char
-            None => return Err(UnexpectedEof),          // TODO: is this correct?
+            None => return Err(UnexpectedEof),
         }
     } else {
         // otherwise we must be at SP right after the path
         match buf.get(i) {
             Some(b' ') => {}
+            Some(b'\r' | b'\n') => return Err(UnsupportedHttpVersion), // line ends without a version
             Some(_) => return Err(MalformedStatusLine),
             None => return Err(UnexpectedEof),
         }
